@@ -298,3 +298,305 @@ Proof.
     pose proof (zlen_ge0 _ (skipn (Z.to_nat ep) (line e))); lia).
   rewrite L, R, C. apply cut_then_insert; unfold llen in *; try lia. exact Hn.
 Qed.
+
+(* ---------------------------------------------------------------- C17: the region both vi operators read *)
+
+Lemma set_sel_eta : forall e, set_sel e (sel e) = e.
+Proof. intros e. destruct e. reflexivity. Qed.
+
+Lemma c_check_append_idem : forall e, c_check_append (c_check_append e) = c_check_append e.
+Proof.
+  intros e. unfold c_check_append at 1. unfold llen.
+  set (e1 := c_check_append e).
+  assert (H1 : 0 <= cpos e1 <= zlen (line e1)).
+  { unfold e1, c_check_append, llen. cbn [cpos line set_cmark set_cpos]. pose proof (zlen_ge0 _ (line e)).
+    destruct (cpos e <? 0) eqn:A; destruct (zlen (line e) <? _) eqn:B; lia. }
+  assert (H2 : -1 <= cmark e1 <= zlen (line e1) - 1).
+  { unfold e1, c_check_append, llen. cbn [cmark line set_cmark set_cpos]. pose proof (zlen_ge0 _ (line e)).
+    destruct (cmark e <? -1) eqn:A; destruct (zlen (line e) - 1 <? _) eqn:B; lia. }
+  replace (cpos e1 <? 0) with false by lia.
+  replace (zlen (line e1) <? cpos e1) with false by lia.
+  replace (cmark e1 <? -1) with false by lia.
+  replace (zlen (line e1) - 1 <? cmark e1) with false by lia.
+  destruct e1. reflexivity.
+Qed.
+
+
+Ltac split_cmp e b ep :=
+  destruct (zlen (line e) =? 0) eqn:?; destruct (b <? 0) eqn:?; destruct (ep <? 0) eqn:?;
+  destruct (zlen (line e) <? b) eqn:?; destruct (zlen (line e) <? ep) eqn:?; cbn [andb negb] in *.
+
+
+Lemma s_check_range_out : forall e b ep b' ep', s_check_range e b ep = (b', ep', true) ->
+  0 < llen e /\ 0 <= b' <= llen e /\ (ep' = -1 \/ b' <= ep' <= llen e).
+Proof.
+  intros e b ep b' ep' H. pose proof (zlen_ge0 _ (line e)) as Hn. unfold s_check_range, llen in *.
+  split_cmp e b ep; try discriminate; try lia;
+  repeat match type of H with context[if ?c then _ else _] => destruct c eqn:? end;
+    inversion H; subst; lia.
+Qed.
+
+Lemma s_check_range_in : forall e b ep, 0 < llen e -> 0 <= b <= llen e -> (ep = -1 \/ b <= ep <= llen e) ->
+  s_check_range e b ep = (b, ep, true).
+Proof.
+  intros e b ep H0 H1 H2. unfold s_check_range, llen in *.
+  split_cmp e b ep; try lia;
+  repeat match goal with |- context[if ?c then _ else _] => destruct c eqn:? end; try reflexivity; try lia;
+    f_equal; f_equal; lia.
+Qed.
+
+Lemma s_check_range_idem : forall e b ep b' ep', s_check_range e b ep = (b', ep', true) ->
+  s_check_range e b' ep' = (b', ep', true).
+Proof.
+  intros e b ep b' ep' H. apply s_check_range_out in H. destruct H as (H0 & H1 & H2).
+  apply s_check_range_in; assumption.
+Qed.
+
+Lemma s_check_range_llen : forall e e' b ep, llen e' = llen e -> s_check_range e' b ep = s_check_range e b ep.
+Proof. intros e e' b ep H. unfold s_check_range. rewrite H. reflexivity. Qed.
+
+(* Selection.Pos normalises the stored positions once: asking again changes nothing *)
+Lemma s_pos_fix : forall e e1 b ep, s_pos e = (e1, b, ep) -> s_pos e1 = (e1, b, ep).
+Proof.
+  intros e e1 b ep H. unfold s_pos in H.
+  destruct ((llen e =? 0) || negb (s_active (sel e))) eqn:E0.
+  { inversion H; subst. unfold s_pos. rewrite E0. reflexivity. }
+  destruct (s_check_range e (s_bpos (sel e)) (s_epos (sel e))) as [[b0 ep0] ok] eqn:E1.
+  destruct ok; cbn [negb] in H.
+  2:{ inversion H; subst. unfold s_pos. rewrite E0, E1. reflexivity. }
+  set (e' := set_sel e {| s_active := true; s_visual := s_visual (sel e); s_vline := s_vline (sel e); s_bpos := b0; s_epos := ep0 |}) in *.
+  set (ea := c_check_append e') in *.
+  assert (Hl : llen ea = llen e) by reflexivity.
+  assert (Hs : sel ea = {| s_active := true; s_visual := s_visual (sel e); s_vline := s_vline (sel e); s_bpos := b0; s_epos := ep0 |}) by reflexivity.
+  assert (Hfix : s_pos ea =
+    (let '(b1, ep1) := if ep0 =? -1 then s_select_to_cursor ea b0 else (b0, ep0) in
+     let ep1 := if s_visual (sel ea) then ep1 + 1 else ep1 in
+     let '(b2, ep2, ok) := s_check_range ea b1 ep1 in
+     if negb ok then (ea, -1, -1) else (ea, b2, ep2))).
+  { unfold s_pos. rewrite Hl. rewrite Hs. cbn [s_active s_bpos s_epos s_visual s_vline].
+    assert (E0' : (llen e =? 0) || negb true = false).
+    { destruct (llen e =? 0); [discriminate E0 | reflexivity]. }
+    rewrite E0'.
+    rewrite (s_check_range_llen e ea b0 ep0 Hl). rewrite (s_check_range_idem e _ _ b0 ep0 E1). cbn [negb].
+    replace (set_sel ea {| s_active := true; s_visual := s_visual (sel e); s_vline := s_vline (sel e); s_bpos := b0; s_epos := ep0 |}) with ea
+      by (rewrite <- Hs; symmetry; apply set_sel_eta).
+    assert (Hid : c_check_append ea = ea) by (unfold ea; apply c_check_append_idem).
+    rewrite !Hid. rewrite Hs. cbn [s_visual]. reflexivity. }
+  (* the first call returns the same expression *)
+  assert (Hfirst : (ea, b, ep) = (e1, b, ep) -> ea = e1) by (intros X; inversion X; reflexivity).
+  revert H. rewrite Hs. cbn [s_visual].
+  destruct (if ep0 =? -1 then s_select_to_cursor ea b0 else (b0, ep0)) as [b1 ep1] eqn:E2.
+  destruct (s_check_range ea b1 (if s_visual (sel e) then ep1 + 1 else ep1)) as [[b2 ep2] ok2] eqn:E3.
+  intros H.
+  assert (He : e1 = ea) by (destruct ok2; cbn [negb] in H; inversion H; reflexivity).
+  rewrite He in *. rewrite Hfix. cbv zeta. rewrite Hs. cbn [s_visual]. rewrite E3.
+  destruct ok2; cbn [negb] in *; inversion H; reflexivity.
+Qed.
+
+(* line and kill ring are untouched by the cursor / selection / keymap bookkeeping *)
+Definition same_lr (e e' : ed) : Prop := line e' = line e /\ ring e' = ring e.
+Lemma same_lr_refl : forall e, same_lr e e. Proof. intros; split; reflexivity. Qed.
+Lemma same_lr_trans : forall a b c, same_lr a b -> same_lr b c -> same_lr a c.
+Proof. intros a b c [A1 A2] [B1 B2]. split; congruence. Qed.
+
+Lemma c_check_append_lr : forall e, same_lr e (c_check_append e). Proof. intros; split; reflexivity. Qed.
+Lemma c_set_lr : forall e p, same_lr e (c_set e p). Proof. intros; split; reflexivity. Qed.
+Lemma c_dec_lr : forall e, same_lr e (c_dec e).
+Proof. intros e. unfold c_dec. destruct (0 <? cpos e); split; reflexivity. Qed.
+Lemma s_reset_lr : forall e, same_lr e (s_reset e). Proof. intros; split; reflexivity. Qed.
+Lemma it_reset_lr : forall e, same_lr e (it_reset e). Proof. intros; split; reflexivity. Qed.
+Lemma set_maps_lr : forall e m l, same_lr e (set_maps e m l). Proof. intros; split; reflexivity. Qed.
+Lemma set_sel_lr : forall e s, same_lr e (set_sel e s). Proof. intros; split; reflexivity. Qed.
+
+Lemma c_check_command_lr : forall e, match c_check_command e with Ok e' => same_lr e e' | _ => True end.
+Proof.
+  intros e. unfold c_check_command.
+  destruct (c_on_empty_line (c_check_append e)) as [oe| |]; cbn [bind]; auto.
+  match goal with |- context[if ?c then set_cpos ?x ?y else ?z] => set (e1 := if c then set_cpos x y else z) end.
+  assert (L1 : same_lr e e1) by (unfold e1; destruct ((cpos (c_check_append e) =? llen (c_check_append e)) && negb oe); split; reflexivity).
+  destruct ((0 <? llen e1) && (cpos e1 <? llen e1) && (c_char e1 =? 10)); [|exact L1].
+  destruct (c_on_empty_line (c_check_append e1)) as [oe2| |]; cbn [bind]; auto.
+  destruct (negb oe2).
+  - eapply same_lr_trans; [exact L1|]. eapply same_lr_trans; [apply c_check_append_lr | apply c_dec_lr].
+  - eapply same_lr_trans; [exact L1 | apply c_check_append_lr].
+Qed.
+
+Lemma vi_command_mode_lr : forall e, match vi_command_mode e with Ok e' => same_lr e e' | _ => True end.
+Proof.
+  intros e. unfold vi_command_mode.
+  match goal with |- context[c_check_command ?x] => set (e1 := x) end.
+  assert (L1 : same_lr e e1).
+  { unfold e1. destruct ((kmain (it_reset (s_reset e)) =? M_viins) && negb (c_at_bol (it_reset (s_reset e)))).
+    - eapply same_lr_trans; [|apply c_dec_lr]. eapply same_lr_trans; [apply s_reset_lr | apply it_reset_lr].
+    - eapply same_lr_trans; [apply s_reset_lr | apply it_reset_lr]. }
+  pose proof (c_check_command_lr e1) as C. destruct (c_check_command e1) as [e2| |]; cbn [bind]; auto.
+  eapply same_lr_trans; [exact L1|]. eapply same_lr_trans; [exact C | apply set_maps_lr].
+Qed.
+
+Lemma adjust_pending_lr : forall e, same_lr e (adjust_selection_pending e).
+Proof.
+  intros e. unfold adjust_selection_pending. destruct (negb (s_active (sel e))); [apply same_lr_refl|].
+  destruct (existsb _ _); [apply set_sel_lr | apply same_lr_refl].
+Qed.
+
+Lemma s_pos_lr : forall e e1 b ep, s_pos e = (e1, b, ep) -> same_lr e e1.
+Proof.
+  intros e e1 b ep H. unfold s_pos in H.
+  destruct ((llen e =? 0) || negb (s_active (sel e))); [inversion H; apply same_lr_refl|].
+  destruct (s_check_range e (s_bpos (sel e)) (s_epos (sel e))) as [[b0 ep0] ok].
+  destruct ok; cbn [negb] in H; [|inversion H; apply same_lr_refl].
+  match type of H with context[c_check_append ?x] => set (ea := c_check_append x) in * end.
+  assert (La : same_lr e ea) by (split; reflexivity).
+  destruct (if ep0 =? -1 then s_select_to_cursor ea b0 else (b0, ep0)) as [b1 ep1].
+  destruct (s_check_range ea b1 (if s_visual (sel ea) then ep1 + 1 else ep1)) as [[b2 ep2] ok2].
+  destruct ok2; cbn [negb] in H; inversion H; subst; exact La.
+Qed.
+
+Lemma s_cursor_fst : forall e e1 b ep, s_pos e = (e1, b, ep) -> fst (s_cursor e) = e1.
+Proof.
+  intros e e1 b ep H. unfold s_cursor. rewrite H.
+  destruct ((b =? -1) && (ep =? -1)); [reflexivity|].
+  destruct (negb (s_visual (sel e1)) || negb (s_vline (sel e1))); [reflexivity|].
+  destruct (ep <? zlen (line e1)); reflexivity.
+Qed.
+
+Lemma ring_write_line : forall e t, line (ring_write e t) = line e.
+Proof. intros e t. unfold ring_write. destruct t; reflexivity. Qed.
+
+(* what Selection.Cut and Selection.Pop compute once Pos has been taken *)
+Lemma s_cut_shape : forall e0 ea b ep, s_pos e0 = (ea, b, ep) ->
+  match s_cut ea with
+  | Ok (e', t) =>
+    (llen ea = 0 /\ e' = ea /\ t = []) \/
+    ((b = -1 \/ ep = -1) /\ e' = s_reset ea /\ t = []) \/
+    (0 <= b <= ep /\ ep <= llen ea /\ e' = s_reset (set_line ea (l_cut (line ea) b ep)) /\ t = sub (line ea) b ep)
+  | _ => True
+  end.
+Proof.
+  intros e0 ea b ep P. pose proof (s_pos_fix e0 ea b ep P) as Pf. unfold s_cut.
+  destruct (llen ea =? 0) eqn:Z0; [left; split; [lia | split; reflexivity]|].
+  rewrite Pf. destruct ((b =? -1) || (ep =? -1)) eqn:Neg; [right; left; split; [lia | split; reflexivity]|].
+  unfold s_text. rewrite Z0. rewrite Pf. rewrite Neg. unfold slice.
+  destruct ((0 <=? b) && (b <=? ep) && (ep <=? zlen (line ea))) eqn:Bd; cbn [bind]; auto.
+  right. right. unfold llen. split; [lia|]. split; [lia|]. split; reflexivity.
+Qed.
+
+Lemma s_pop_shape : forall e0 ea b ep, s_pos e0 = (ea, b, ep) ->
+  match s_pop e0 with
+  | Ok (e', t, _, _, _) =>
+    (llen e0 = 0 /\ e' = e0 /\ t = []) \/
+    ((b = -1 \/ ep = -1) /\ e' = s_reset ea /\ t = []) \/
+    (0 <= b <= ep /\ ep <= llen ea /\ e' = s_reset ea /\ t = sub (line ea) b ep)
+  | _ => True
+  end.
+Proof.
+  intros e0 ea b ep P. pose proof (s_pos_fix e0 ea b ep P) as Pf. unfold s_pop.
+  destruct (llen e0 =? 0) eqn:Z0; [left; split; [lia | split; reflexivity]|].
+  rewrite P. destruct ((b =? -1) || (ep =? -1)) eqn:Neg; [right; left; split; [lia | split; reflexivity]|].
+  pose proof (s_cursor_fst ea ea b ep Pf) as C2.
+  destruct (s_cursor ea) as [e4 c4]. cbn [fst] in C2. subst e4. unfold slice.
+  destruct ((0 <=? b) && (b <=? ep) && (ep <=? zlen (line ea))) eqn:Bd; cbn [bind]; auto.
+  right. right. unfold llen. split; [lia|]. split; [lia|]. split; reflexivity.
+Qed.
+
+Lemma del_tail_shape : forall e2 ea b ep, s_pos e2 = (ea, b, ep) ->
+  match del_tail e2 with
+  | Ok ed =>
+    exists e' t, same_lr (ring_write e' t) ed /\
+      ((llen ea = 0 /\ e' = ea /\ t = []) \/ ((b = -1 \/ ep = -1) /\ e' = s_reset ea /\ t = []) \/
+       (0 <= b <= ep /\ ep <= llen ea /\ e' = s_reset (set_line ea (l_cut (line ea) b ep)) /\ t = sub (line ea) b ep))
+  | _ => True
+  end.
+Proof.
+  intros e2 ea b ep P. unfold del_tail.
+  pose proof (s_cursor_fst e2 ea b ep P) as C1.
+  destruct (s_cursor e2) as [e3 cp]. cbn [fst] in C1. subst e3.
+  pose proof (s_cut_shape e2 ea b ep P) as S.
+  destruct (s_cut ea) as [[e' t]| |]; cbn [bind]; auto.
+  pose proof (vi_command_mode_lr (c_set (ring_write e' t) cp)) as V.
+  destruct (vi_command_mode (c_set (ring_write e' t) cp)) as [ed| |]; auto.
+  exists e', t. split; [eapply same_lr_trans; [apply c_set_lr | exact V]|].
+  destruct S as [(Z & A & B) | [(Z & A & B) | (A1 & A2 & A3 & A4)]]; auto.
+  right. right. auto.
+Qed.
+
+Lemma yank_tail_shape : forall e2 ea b ep, s_pos e2 = (ea, b, ep) ->
+  match yank_tail e2 with
+  | Ok ey =>
+    exists e' t, same_lr (ring_write e' t) ey /\
+      ((llen e2 = 0 /\ e' = e2 /\ t = []) \/ ((b = -1 \/ ep = -1) /\ e' = s_reset ea /\ t = []) \/
+       (0 <= b <= ep /\ ep <= llen ea /\ e' = s_reset ea /\ t = sub (line ea) b ep))
+  | _ => True
+  end.
+Proof.
+  intros e2 ea b ep P. unfold yank_tail.
+  pose proof (s_pop_shape e2 ea b ep P) as S.
+  destruct (s_pop e2) as [[[[[e' t] b'] ep'] cp]| |]; cbn [bind]; auto.
+  pose proof (vi_command_mode_lr (c_set (ring_write e' t) cp)) as V.
+  destruct (vi_command_mode (c_set (ring_write e' t) cp)) as [ey| |]; auto.
+  exists e', t. split; [eapply same_lr_trans; [apply c_set_lr | exact V]|].
+  destruct S as [(Z & A & B) | [(Z & A & B) | (A1 & A2 & A3 & A4)]]; auto.
+  right. right. auto.
+Qed.
+
+Lemma ring_write_nil : forall e, ring_write e [] = e.
+Proof. reflexivity. Qed.
+
+Lemma ring_write_ring : forall e e' t, ring e = ring e' -> ring (ring_write e t) = ring (ring_write e' t).
+Proof. intros e e' t H. unfold ring_write. destruct t; [exact H|]. cbn. rewrite H. reflexivity. Qed.
+
+(* d and y over an active selection (visual mode, or after the motion of d<motion> /
+   y<motion>), from the same state: both read the same region; yank leaves the buffer
+   alone; delete removes exactly that range; both leave the same text on the ring *)
+Theorem vi_delete_yank_agree : forall e2 ed ey,
+  del_tail e2 = Ok ed -> yank_tail e2 = Ok ey ->
+  line ey = line e2 /\ ring ed = ring ey /\
+  ((line ed = line e2) \/ exists b ep, 0 <= b <= ep /\ ep <= llen e2 /\
+                                       line ed = l_cut (line e2) b ep /\
+                                       (sub (line e2) b ep <> [] -> ring_top ed = sub (line e2) b ep)).
+Proof.
+  intros e2 ed ey Hd Hy.
+  destruct (s_pos e2) as [[ea b] ep] eqn:P.
+  destruct (s_pos_lr e2 ea b ep P) as [La Ra].
+  pose proof (del_tail_shape e2 ea b ep P) as Dd. rewrite Hd in Dd.
+  pose proof (yank_tail_shape e2 ea b ep P) as Dy. rewrite Hy in Dy.
+  destruct Dd as (e1 & t1 & [Ld Rd] & Sd).
+  destruct Dy as (e3 & t3 & [Ly Ry] & Sy).
+  rewrite ring_write_line in Ld, Ly.
+  assert (Hll : llen ea = llen e2) by (unfold llen; rewrite La; reflexivity).
+  assert (Hsub0 : llen ea = 0 -> sub (line ea) b ep = []).
+  { intros Z. unfold llen, zlen in Z. destruct (line ea); [|cbn in Z; lia]. unfold sub. rewrite skipn_nil. apply firstn_nil. }
+  destruct Sd as [(Zd & A & B) | [(Zd & A & B) | (A1 & A2 & A3 & A4)]];
+  destruct Sy as [(Zy & C & D) | [(Zy & C & D) | (C1 & C2 & C3 & C4)]]; subst;
+  rewrite ?ring_write_nil in *; cbn [line ring s_reset set_sel set_line] in *;
+  try (split; [congruence|]; split; [congruence|]; left; congruence);
+  try lia.
+  - (* empty buffer on the delete side *)
+    rewrite (Hsub0 Zd) in *. rewrite ring_write_nil in *. cbn [line ring s_reset set_sel] in *.
+    split; [congruence|]. split; [congruence|]. left. congruence.
+  - assert (E0 : sub (line ea) b ep = []) by (apply Hsub0; lia).
+    rewrite E0 in Rd. rewrite ring_write_nil in Rd. cbn [line ring s_reset set_sel set_line] in *.
+    split; [congruence|]. split; [congruence|].
+    right. exists b, ep. rewrite <- La. rewrite <- Hll. split; [lia|]. split; [lia|]. split; [congruence|].
+    intros X. exfalso. apply X. exact E0.
+  - split; [congruence|]. split.
+    + rewrite Rd, Ry. unfold ring_write. destruct (sub (line ea) b ep); cbn; congruence.
+    + right. exists b, ep. rewrite La in *. rewrite Hll in *. split; [lia|]. split; [lia|]. split; [congruence|].
+      intros Hne. unfold ring_top. rewrite Rd. unfold ring_write. destruct (sub (line e2) b ep); [contradiction|]. reflexivity.
+Qed.
+
+(* the commands themselves: vi-delete-to and vi-yank-to with an active selection *)
+Theorem vi_delete_yank_commands_agree : forall e ed ey,
+  cmd_vi_delete_sel e = Ok ed -> cmd_vi_yank_sel e = Ok ey ->
+  line ey = line e /\ ring ed = ring ey /\
+  ((line ed = line e) \/ exists b ep, 0 <= b <= ep /\ ep <= llen e /\
+                                      line ed = l_cut (line e) b ep /\
+                                      (sub (line e) b ep <> [] -> ring_top ed = sub (line e) b ep)).
+Proof.
+  intros e ed ey Hd Hy. unfold cmd_vi_delete_sel in Hd. unfold cmd_vi_yank_sel in Hy.
+  destruct (h_save e) as [e0| |] eqn:Hs; cbn [bind] in Hd, Hy; try discriminate.
+  destruct (h_save_frame e e0 Hs) as (L0 & _).
+  destruct (adjust_pending_lr e0) as [L2 _].
+  pose proof (vi_delete_yank_agree (adjust_selection_pending e0) ed ey Hd Hy) as H.
+  unfold llen in *. rewrite L2, L0 in H. exact H.
+Qed.
